@@ -28,9 +28,9 @@ def replay_value(p, args):
     st, es = simplified_guarded(e)
     if st != 'ok': return True, f'simplification: {st} {es}'
     try:
-        r0 = tv.concrete_eval(e, args, _simplify=False, _optimize=False)
+        r0 = tv.concrete_eval(e, args, strict=True, _simplify=False, _optimize=False)
     except Exception as ex:
-        return False, f'reference raised {type(ex).__name__}'
+        return False, f'reference raised {type(ex).__name__} (outside the domain of the original)'
     if not tv.finite(r0): return False, 'reference not finite'
     try:
         r1 = tv.concrete_eval(es, args, _simplify=False, _optimize=False)
@@ -62,7 +62,7 @@ def _work(p, minimize=True):
     st, es = simplified_guarded(e)
     if st in ('timeout', 'loop'):
         res['viol'].append((f'simplification does not terminate ({st}): {key}', dict(program=key, kind='termination', detail=str(es))))
-        if minimize: c = progs.core(p, _fails_term); res['core'] = 'termination:' + progs.skeleton(c); res['core_program'] = progs.show(c)
+        if minimize: c = progs.core(p, _fails_term); res['core'] = 'termination:' + progs.op_classes(c); res['core_program'] = progs.show(c)
         res['status'] = 'term'; return res
     if st == 'exc':
         # only a violation if the original is defined somewhere (probe with in-range concrete arguments)
@@ -87,7 +87,7 @@ def _work(p, minimize=True):
     try:
         f0 = tv.sym_compile(e, _simplify=False, _optimize=False)
         f1 = tv.sym_compile(es, _simplify=False, _optimize=False)
-        out = with_timeout(60, lambda: tv.compare_runs(f0, f1, names, max_paths=8, timeout_ms=10000, margin=1e-9))
+        out = with_timeout(60, lambda: tv.compare_runs(f0, f1, names, max_paths=8, timeout_ms=10000, margin=1e-9, budget_s=20))
     except Timeout:
         res['status'] = 'harness_timeout'; return res
     res['q'] = out['q']; res['paths'] = out['paths']
